@@ -11,6 +11,8 @@
 """
 from collections import defaultdict
 
+from .. import witness, extract
+import os
 from ..facts import AnalysisBroken, short
 from ..paths import path, pstr, last_field, root_var_id, fields_in
 from ..locks import mutex_name
@@ -57,6 +59,7 @@ def check(ctx):
     ctx.require_min('C03.L1', 8)
     ctx.require_min('C03.L2', 4)
     ctx.require_min('C03.L3', 4)
+    witness.check_static_unit(ctx, 'C03.L6', os.path.join(extract.VERIF, 'witness', 's_meta.cpp'), 'threading policy selection', tag='C03')
     ctx.require_min('C03.L4', 10)
     ctx.require_min('C03.L5', 4)
     ctx.require_min('C03.L6', 2)
